@@ -269,8 +269,137 @@ def w_roundtrip(cfg, tier):
     return col.result()
 
 
+NOISE_CANDIDATES = [
+    {'r_x': 1 / 3, 'r_y': 1 / 3, 'r_z': 1 / 3},
+    {'r_x': 0.1, 'r_y': 0.1, 'r_z': 0.8, 'deformation_name': 'XZZX'},
+    {'r_x': 0.1, 'r_y': 0.1, 'r_z': 0.8, 'deformation_name': 'XZZX', 'deformation_kwargs': {'deformation_axis': 'x'}},
+    {'r_x': 0.1, 'r_y': 0.1, 'r_z': 0.8, 'deformation_name': 'XZZX', 'deformation_kwargs': {'deformation_axis': 'y'}},
+    {'r_x': 0.2, 'r_y': 0.3, 'r_z': 0.5, 'deformation_name': 'XY'},
+]
+DECODER_CANDIDATES = [('MatchingDecoder', {}), ('BeliefPropagationOSDDecoder', {'max_bp_iter': 7, 'osd_order': 0}),
+                      ('BeliefPropagationOSDDecoder', {'max_bp_iter': 9, 'channel_update': True})]
+CODE_CANDIDATES = [('Toric2DCode', {'L_x': 2, 'L_y': 3}), ('Planar2DCode', {'L_x': 3, 'L_y': 2}),
+                   ('RotatedPlanar2DCode', {'L_x': 2, 'L_y': 2})]
+
+
+def build_real(form, ni, di, ci):
+    """The real read_input_dict (real registries, real classes) on a specification whose noise / decoder
+    entries are the candidates with the given indices; returns (requested, built) descriptions."""
+    import copy
+    import panqec.simulation._batch_simulation as bs
+    from panqec.error_models import PauliErrorModel
+    cname, cpar = CODE_CANDIDATES[ci]
+    noise = [copy.deepcopy(NOISE_CANDIDATES[i]) for i in ni]
+    decs = [(DECODER_CANDIDATES[i][0], copy.deepcopy(DECODER_CANDIDATES[i][1])) for i in di]
+    rates = [0.05, 0.1]
+    want = []
+    if form == 'ranges':
+        # one decoder class per sub-specification (the format names one class per entry)
+        subs = []
+        for dname in dict.fromkeys(d for d, _ in decs):
+            dp = [p for d, p in decs if d == dname]
+            subs.append({'label': 'x', 'code': {'name': cname, 'parameters': [dict(cpar)]},
+                         'error_model': {'name': 'PauliErrorModel', 'parameters': copy.deepcopy(noise)},
+                         'decoder': {'name': dname, 'parameters': copy.deepcopy(dp)}, 'error_rate': list(rates)})
+            want += [(cname, cpar, n_, dname, p_, r) for n_ in noise for p_ in dp for r in rates]
+        data = {'ranges': subs if len(subs) > 1 else subs[0]}
+    else:
+        runs = []
+        for j in range(max(len(noise), len(decs))):
+            n_, (dname, p_), r = noise[j % len(noise)], decs[j % len(decs)], rates[j % 2]
+            runs.append({'label': 'x', 'code': {'name': cname, 'parameters': dict(cpar)},
+                         'error_model': {'name': 'PauliErrorModel', 'parameters': copy.deepcopy(n_)},
+                         'decoder': {'name': dname, 'parameters': copy.deepcopy(p_)}, 'error_rate': r})
+            want.append((cname, cpar, n_, dname, p_, r))
+        data = {'runs': runs}
+    import contextlib
+    import io
+    with contextlib.redirect_stdout(io.StringIO()):
+        batch = bs.read_input_dict(copy.deepcopy(data), None, verbose=False)
+    norm = lambda n_: (round(n_['r_x'], 12), round(n_['r_y'], 12), round(n_['r_z'], 12), n_.get('deformation_name'),
+                       tuple(sorted((n_.get('deformation_kwargs') or {}).items())))
+    got = []
+    for sim in batch._simulations:
+        em, dec, code = sim.error_model, sim.decoder, sim.code
+        # what the object IS (attributes the behaviour depends on) and what is RECORDED for the results file
+        is_ = (type(code).__name__, tuple(code.size), norm(dict(zip(('r_x', 'r_y', 'r_z'), em.direction),
+               deformation_name=em._deformation_name, deformation_kwargs=em._deformation_kwargs)),
+               type(dec).__name__, sim.error_rate)
+        rec = sim._inputs if hasattr(sim, '_inputs') else {}
+        recn = rec.get('error_model', {}).get('parameters', {})
+        ref = PauliErrorModel(**copy.deepcopy(recn)) if isinstance(recn, dict) and recn else None
+        # the distribution the built model yields must be the one a model built from the REQUEST yields
+        got.append(dict(is_=is_, recorded=norm(recn) if recn else None,
+                        dec_params={k_: v for k_, v in dec.params.items()},
+                        dist=[np.asarray(a).round(12).tolist() for a in em.probability_distribution(code, 0.1)]))
+    wnt = []
+    for (cn, cp, n_, dn, p_, r) in want:
+        code = bs.CODES[cn](**cp)
+        ref = PauliErrorModel(**copy.deepcopy(n_))
+        wnt.append(dict(is_=(cn, tuple(code.size), norm(n_), dn, r), recorded=norm(n_), dec_params=p_,
+                        dist=[np.asarray(a).round(12).tolist() for a in ref.probability_distribution(code, 0.1)]))
+    return wnt, got
+
+
+def real_mismatch(wnt, got):
+    if len(wnt) != len(got):
+        return f'{len(got)} simulations built, {len(wnt)} requested'
+    key = lambda d: json.dumps([d['is_'], d['recorded'], d['dist']], sort_keys=True, default=str)
+    if sorted(map(key, wnt)) != sorted(map(key, got)):
+        for w_, g_ in zip(sorted(wnt, key=key), sorted(got, key=key)):
+            if key(w_) != key(g_):
+                return f'requested {w_["is_"]} recorded {w_["recorded"]} / built {g_["is_"]} recorded {g_["recorded"]}' \
+                       f'{" (distribution differs)" if w_["dist"] != g_["dist"] else ""}'
+    for w_ in wnt:
+        if not any(g_['is_'] == w_['is_'] and all(g_['dec_params'].get(k_) == v for k_, v in w_['dec_params'].items())
+                   for g_ in got):
+            return f'no built simulation carries decoder parameters {w_["dec_params"]} for {w_["is_"]}'
+    return None
+
+
+def w_real(cfg, tier):
+    """cfg = 'real form=<ranges|runs> k=<entries>': the REAL registries and classes.  The solver chooses
+    (realised) which noise / decoder candidates make up the specification and in which order (repetition
+    allowed); every built simulation must BE (direction, deformation name and kwargs, per-qubit distribution,
+    decoder class and parameters, code size, rate) and RECORD exactly one requested combination, each once."""
+    import panqec.simulation._batch_simulation as bs
+    parts = dict(p.split('=') for p in cfg.split()[1:])
+    form, kk = parts['form'], int(parts['k'])
+    col = hz.Collector(cfg)
+    col.encoded(bs.read_input_dict, bs._parse_error_model_dict, bs._parse_decoder_dict, bs._parse_code_dict,
+                bs.expand_input_ranges)
+    eng = Engine(name=cfg, max_paths=20000)
+    with eng:
+        ni = [eng.integer(f'noise{j}', 0, len(NOISE_CANDIDATES) - 1) for j in range(kk)]
+        di = [eng.integer(f'dec{j}', 0, len(DECODER_CANDIDATES) - 1) for j in range(2)]
+        ci = eng.integer('code', 0, len(CODE_CANDIDATES) - 1)
+
+        def fn():
+            a, b, c = [int(x) for x in ni], [int(x) for x in di], int(ci)
+            if form == 'ranges' and (len(set(a)) < len(a) or b[0] == b[1]):
+                return a, b, c, None          # a range listing the same entry twice asks for duplicates: skipped
+            return a, b, c, real_mismatch(*build_real(form, a, b, c))
+        ps = eng.explore(fn)
+    col.absorb(eng)
+    bad, w = [], [None]
+    for p in ps:
+        if p.exc is not None:
+            bad.append(z3_and(p.pc))
+            w[0] = w[0] or dict(real=True, form=form, exception=f'{type(p.exc).__name__}: {p.exc}')
+            continue
+        a, b, c, mis = p.value
+        bad.append(z3_and(p.pc + [z3.BoolVal(mis is not None)]))
+        if mis is not None and (w[0] is None or 'noise' not in w[0]):
+            w[0] = dict(real=True, form=form, noise=a, decoders=b, code=c, mismatch=mis)
+    col.prove(f'C13/real/{form}/every-simulation-is-and-records-exactly-one-requested-combination', eng.base,
+              z3_or(bad), lambda m: w[0],
+              f'{len(ps)} realised specifications ({kk} noise entries out of {len(NOISE_CANDIDATES)} candidates incl. '
+              f'deformation kwargs, 2 decoder entries out of {len(DECODER_CANDIDATES)}, {len(CODE_CANDIDATES)} codes), real classes')
+    return col.result()
+
+
 def worker(cfg, tier='quick'):
-    return {'expand': w_expand, 'registry': w_registry, 'roundtrip': w_roundtrip}[cfg.split()[0]](cfg, tier)
+    return {'expand': w_expand, 'registry': w_registry, 'roundtrip': w_roundtrip, 'real': w_real}[cfg.split()[0]](cfg, tier)
 
 
 def replay(path):
@@ -279,7 +408,12 @@ def replay(path):
     w, oid, cfg = d['witness'], d['oid'], d['config']
     bad = False
     try:
-        if cfg.startswith('registry'):
+        if w.get('real') and 'noise' in w:
+            mis = real_mismatch(*build_real(w['form'], w['noise'], w['decoders'], w['code']))
+            print('specification: noise entries', w['noise'], 'decoder entries', w['decoders'], 'code', w['code'])
+            print('mismatch:', mis)
+            bad = mis is not None
+        elif cfg.startswith('registry'):
             from panqec import config
             reg = getattr(config, w['registry'])
             bad = reg[w['key']].__name__ != w['key']
@@ -296,7 +430,9 @@ def replay(path):
 
 
 def configs(tier):
-    out = ['registry', 'roundtrip']
+    out = ['registry', 'roundtrip', 'real form=ranges k=2', 'real form=runs k=2']
+    if tier != 'quick':
+        out += ['real form=ranges k=3', 'real form=runs k=3']
     hi = 2 if tier == 'quick' else 4
     axes = list(itertools.product(range(1, hi + 1), repeat=4))
     if tier == 'quick':
